@@ -17,11 +17,14 @@ EXPLANATION = (
     "(c) elaborability — every constant bit index applied to a signal whose width is derived from constructor "
     "arithmetic is below the least width that arithmetic allows on the path where it is used (interval analysis "
     "over `ceil_log2`, `1 <<`, `+c`, the `depth == 0` early return and Python `if` guards); (d) counter widths and "
-    "the power-of-two rounding of the depth. NOT decided: safety under clock interleavings, Gray-code correctness."
+    "the power-of-two rounding of the depth; (e) the Gray helpers, interpreted in the GF(2)-affine bit domain for every "
+    "pointer width 1..33: encode is v ^ (v >> 1) and decode inverts it; (f) start-up ordering of the synchronisers: the "
+    "read-side reset is released no later than the write pointer's crossing latency (stage counts resolved from the "
+    "call keywords or the constructor defaults in lib/cdc.py). NOT decided: safety under clock interleavings."
 )
 ASSUMPTIONS = ["CPython ast parses /repo's source as the interpreter would",
                "ceil_log2(x) >= 0 for x >= 0, and ceil_log2(x) >= 1 for x >= 2 (used as interval facts)"]
-MIN_INSTANCES = {"R-13a": 4, "R-13b": 14, "R-13c": 3, "R-13d": 4}
+MIN_INSTANCES = {"R-13e": 2, "R-13f": 4, "R-13a": 4, "R-13b": 14, "R-13c": 3, "R-13d": 4}
 
 W_SIDE = ["produce_w_bin", "produce_w_gry", "consume_w_bin", "self.w_level"]
 R_SIDE = ["consume_r_bin", "consume_r_gry", "self.r_rst"]
@@ -305,12 +308,104 @@ def r13d(model, ctx):
     ctx.check(not bad, R, "AsyncFIFO:counter-widths", "all pointers are _ctr_bits wide",
               f"AsyncFIFO: pointers {bad} are not Signal(self._ctr_bits): comparing pointers of different widths breaks the "
               f"full/empty tests", f"{FIFO}:{fn.lineno}")
-    f = model.func(f"{FIFO}::_gray_encode")
-    ok = any(isinstance(s, ast.Return) and unparse(s.value) == "val ^ val[1:]" for s in f.body)
-    ctx.check(ok, R, "_gray_encode", "val ^ (val >> 1)", "_gray_encode must be val ^ val[1:]", f"{FIFO}:{f.lineno}")
     st = [s for s in em.submodules if s.name == "storage"]
     ok = len(st) == 1 and "depth=self.depth" in unparse(st[0].call) and "shape=self.width" in unparse(st[0].call)
     ctx.check(ok, R, "AsyncFIFO:storage", "Memory(shape=width, depth=depth)", "storage must have the (rounded) depth", f"{FIFO}:{fn.lineno}")
 
 
-RULES = [("R-13a", r13a), ("R-13b", r13b), ("R-13c", r13c), ("R-13d", r13d)]
+GRAY_WIDTHS = range(1, 34)      # pointer widths decided (depths up to 2**32)
+
+
+def r13e(model, ctx):
+    """Gray helpers, decided in the GF(2)-affine bit domain (engine/gf2eval.py) for every pointer width 1..33:
+    _gray_encode(v)[i] == v[i] ^ v[i+1] (the reflected binary Gray code) and _gray_decode(_gray_encode(v)) == v."""
+    from ..engine.gf2eval import GF2Eval, Bits
+    R = "R-13e"
+    enc, dec = model.func(f"{FIFO}::_gray_encode"), model.func(f"{FIFO}::_gray_decode")
+    bad_enc, bad_dec = [], []
+    for n in GRAY_WIDTHS:
+        v = Bits.inputs(n)
+        e = GF2Eval().call(enc, [v])
+        if not isinstance(e, Bits):
+            raise AnalysisError("_gray_encode did not return a value")
+        want = [(frozenset([i]) ^ (frozenset([i + 1]) if i + 1 < n else frozenset()), 0) for i in range(n)]
+        got = list(e.bits[:n]) + [(frozenset(), 0)] * max(0, n - len(e))
+        if got != want or any(b != (frozenset(), 0) for b in e.bits[n:]):
+            bad_enc.append((n, e.text()))
+            continue
+        d = GF2Eval().call(dec, [Bits(want)])
+        if not isinstance(d, Bits):
+            raise AnalysisError("_gray_decode did not return a value")
+        got = list(d.bits[:n]) + [(frozenset(), 0)] * max(0, n - len(d))
+        if got != list(v.bits):
+            bad_dec.append((n, d.text()))
+    ctx.check(not bad_enc, R, "_gray_encode", f"bit i = v[i] ^ v[i+1] for widths {GRAY_WIDTHS.start}..{GRAY_WIDTHS.stop - 1}",
+              f"_gray_encode is not the reflected binary Gray code: for width {bad_enc[0][0] if bad_enc else 0} it computes "
+              f"{bad_enc[0][1] if bad_enc else ''} (successive pointer values would differ in more than one bit, which is what "
+              f"makes sampling them from another clock domain safe)", f"{FIFO}:{enc.lineno}")
+    ctx.check(not bad_dec, R, "_gray_decode", f"decode(encode(v)) == v for widths {GRAY_WIDTHS.start}..{GRAY_WIDTHS.stop - 1}",
+              f"_gray_decode does not invert _gray_encode for pointer width(s) {[n for n, _ in bad_dec][:8]}: for width "
+              f"{bad_dec[0][0] if bad_dec else 0} decode(encode(v)) = {bad_dec[0][1] if bad_dec else ''}; the level outputs and the "
+              f"read pointer reloaded on reset would be wrong for FIFOs with that counter width", f"{FIFO}:{dec.lineno}")
+
+
+def _ctor_default(model, cls, kw):
+    f = model.func(f"{CDC}::{cls}.__init__")
+    for a, d in zip(f.args.kwonlyargs, f.args.kw_defaults):
+        if a.arg == kw and d is not None:
+            return const_int(d)
+    pos = f.args.args
+    for a, d in zip(pos[len(pos) - len(f.args.defaults):], f.args.defaults):
+        if a.arg == kw:
+            return const_int(d)
+    return None
+
+
+def _stages(model, call):
+    for k in call.keywords:
+        if k.arg == "stages":
+            return const_int(k.value)
+    return _ctor_default(model, dotted(call.func), "stages")
+
+
+def r13f(model, ctx):
+    """start-up ordering: the read-side reset (AsyncFFSynchronizer flops power up asserted) must be released no later
+    than the first write pointer can arrive through its synchroniser; while r_rst is high the read pointer is
+    overwritten with the synchronised write pointer, which must then still be its initial value."""
+    R = "R-13f"
+    fn = model.func(f"{FIFO}::AsyncFIFO.elaborate")
+    em = _main_model(fn)
+    subs = {s.name: s for s in em.submodules}
+    need("rst_cdc" in subs and "produce_cdc" in subs and "consume_cdc" in subs, "AsyncFIFO: synchroniser submodules not found")
+    k_rst, k_ptr, k_back = _stages(model, subs["rst_cdc"].call), _stages(model, subs["produce_cdc"].call), _stages(model, subs["consume_cdc"].call)
+    need(None not in (k_rst, k_ptr, k_back), "AsyncFIFO: synchroniser stage counts are not integer literals")
+    ctx.check(k_rst <= k_ptr, R, "AsyncFIFO:rst_cdc<=produce_cdc", f"reset release after {k_rst} read edges <= write pointer latency {k_ptr}",
+              f"AsyncFIFO: the read-side reset synchroniser has {k_rst} stages but the write-pointer synchroniser only {k_ptr}: "
+              f"r_rst is still high (the flops power up at 1) on a read edge where produce_r_gry already shows a written "
+              f"pointer, so `consume_r_*.eq(produce_r_gry)` skips entries written before the first read-clock edges",
+              f"{FIFO}:{subs['rst_cdc'].lineno}")
+    ctx.check(k_ptr >= 2 and k_back >= 2 and k_rst >= 2, R, "AsyncFIFO:stages>=2", "every crossing has at least two flops",
+              f"AsyncFIFO: a pointer/reset crossing with fewer than 2 synchroniser stages (rst {k_rst}, produce {k_ptr}, consume "
+              f"{k_back}) exposes a metastable pointer to the full/empty comparison", f"{FIFO}:{fn.lineno}")
+    # the flops of the reset synchroniser power up asserted; those of the pointer synchronisers at the pointer's init (0)
+    fa = model.func(f"{CDC}::AsyncFFSynchronizer.elaborate")
+    fl = [n for n in ast.walk(fa) if isinstance(n, ast.ListComp) and isinstance(n.elt, ast.Call) and dotted(n.elt.func) == "Signal"]
+    need(len(fl) == 1, "AsyncFFSynchronizer.elaborate: flop list not found")
+    kw = {k.arg: unparse(k.value) for k in fl[0].elt.keywords}
+    ok = kw.get("init") == "1" and unparse(fl[0].generators[0].iter) == "range(self._stages)"
+    ctx.check(ok, R, "AsyncFFSynchronizer:flops", "self._stages flops, all powering up asserted",
+              "AsyncFFSynchronizer must build self._stages flops that power up at 1 (output asserted until released synchronously)",
+              f"{CDC}:{fa.lineno}")
+    ff = model.func(f"{CDC}::FFSynchronizer.elaborate")
+    fl = [n for n in ast.walk(ff) if isinstance(n, ast.ListComp) and isinstance(n.elt, ast.Call) and dotted(n.elt.func) == "Signal"]
+    need(len(fl) == 1, "FFSynchronizer.elaborate: flop list not found")
+    loops = [n for n in ff.body if isinstance(n, ast.For)]
+    ok = unparse(fl[0].generators[0].iter) == "range(self._stages)" and len(loops) == 1 and \
+        unparse(loops[0].iter) == "zip((self.i, *flops), flops)" and unparse(loops[0].target) in ("i, o", "(i, o)") and \
+        [unparse(b) for b in loops[0].body] == ["m.d[self._o_domain] += o.eq(i)"] and \
+        any(unparse(b) == "m.d.comb += self.o.eq(flops[-1])" for b in ff.body)
+    ctx.check(ok, R, "FFSynchronizer:chain", "self._stages flops chained i -> flops[0] -> .. -> flops[-1] -> o in o_domain",
+              "FFSynchronizer must chain self._stages flops in the output domain and drive o from the last one", f"{CDC}:{ff.lineno}")
+
+
+RULES = [("R-13e", r13e), ("R-13f", r13f), ("R-13a", r13a), ("R-13b", r13b), ("R-13c", r13c), ("R-13d", r13d)]
